@@ -350,6 +350,8 @@ func bpDispatch(c *Ctx, p *packages.Package, entry string) (map[int]*ast.FuncDec
 func checkC17(c *Ctx) {
 	c.R.Explanation = "Bit-provenance abstract interpretation of internal/bitpack over go/ssa (entry points Pack and Unpack interpreted for each width on fully symbolic inputs; loops and helpers are followed, data-dependent branches make the result undecided): every output bit is evaluated to 0, 1, 'bit b of input element i' or unknown; obligations: pack_W output bit 8j+k is exactly input bit (i,b) with i*W+b = 8j+k (LSB-first little-endian), depends on no bit >= W; unpack_W element i bit b<W is stream bit i*W+b, higher bits 0; the two maps are mutually inverse bijections; Pack/Unpack dispatch case W to the function proven for W; the call sites in rle pass an 8-element buffer and the same width on both sides."
 	bpCore(c)
+	// ... and the reader's call site hands every group of a bit-packed run to that unpacker
+	laRLEDecoder(c, map[string]bool{"unpack-all": true})
 	c.R.Extra["checker_cmd"] = "/verif/bin/verif check C17"
 	c.R.Extra["trusted_base"] = []string{"go/parser, go/types and go/constant (parsing, typing, constant evaluation of masks and shift counts)",
 		"the abstract interpreter over go/ssa in /verif/checker/bpssa.go (about 550 lines: bit-level transfer functions for & | ^ &^ << >> + conversions, constant arithmetic for data-independent values, slices/arrays/append, calls, phis)",
